@@ -91,11 +91,13 @@ under options with the given `recursive` flag. -/
 inductive Mode where
   | native
   | converted (recursive : Bool)
+  | refused      -- not a way of running: the callee's function scope refuses the conversion options, the body is not reached
   deriving DecidableEq, Repr, Inhabited
 
 def Mode.isConverted : Mode → Bool
   | .native => false
   | .converted _ => true
+  | .refused => false
 
 inductive Kind where
   | plain                                    -- f(…) written in the caller's body, f a plain user function
@@ -104,12 +106,17 @@ inductive Kind where
   | withCtx (st : Status) (src : Bool)       -- `with ag_ctx.ControlStatusCtx(st): f(…)`; src: the block is itself a plain
                                              --   user function g called from the caller's body (so g may get converted),
                                              --   else it sits in an autograph artifact (called as it is, f called natively)
-  | functionScope (ur : Bool)                -- hand-written `with FunctionScope(…, options(user_requested=ur)): f(…)` or
+  | functionScope (ur feat : Bool)           -- hand-written `with FunctionScope(…, options(user_requested=ur)): f(…)` or
                                              --   `with_function_scope(lambda scope: f(…), …)` in an artifact; f called natively
-  | toGraph (rec : Bool) (viaLambda : Bool)  -- to_graph(f, recursive=rec)(…): the body *is* converted code inside its
+  | toGraph (rec : Bool) (viaLambda : Bool) (feat : Bool)
+                                             -- to_graph(f, recursive=rec)(…): the body *is* converted code inside its
                                              --   FunctionScope(user_requested=True); viaLambda: f is `lambda …: g(…)` with g
                                              --   called natively, the observed body is g's
-  | convert (ur rec : Bool) (c : Option CtxRef)   -- api.convert(recursive=rec, user_requested=ur, conversion_ctx=c)(f)(…); none = NullCtx()
+  | convert (ur rec feat : Bool) (c : Option CtxRef)
+                                             -- api.convert(recursive=rec, user_requested=ur, optional_features=…, conversion_ctx=c)(f)(…);
+                                             --   none = NullCtx()
+                                             -- `feat`: the conversion options ask for an optional feature the function scope does not
+                                             --   support (NAME_SCOPES, AUTO_CONTROL_DEPS, or ALL which implies them)
   | internalConvert (c : CtxRef) (cbd ur : Bool)  -- api.internal_convert(f, c, cbd, ur)(…)
   deriving DecidableEq, Repr
 
@@ -120,6 +127,7 @@ inductive Exn where
   | boom (origin : Path)      -- the harness' exception, raised by the node at `origin`
   | assertion                 -- `assert _control_ctx()[-1] is self` failed
   | index                     -- `[-1]` of an empty list
+  | rejected                  -- AssertionError of `FunctionScope`: "… are not supported"
   deriving DecidableEq, Repr
 
 inductive Tree where
@@ -182,16 +190,45 @@ def withFresh (st : Status) (body : Comp) : Comp := fun s =>
 def functionScope (ur : Bool) (body : Comp) : Comp :=
   if ur then withFresh .enabled body else body
 
+/-- `__enter__` of a function scope, statement by statement (`Gen.fsEnterSteps`): the state, the identity of the
+context object entered (if any) and whether a check refused the options (`feat`) — in which case `__enter__`
+raises where it stands: what it has pushed stays, and `__exit__` will not be called. -/
+def runEnter : List Gen.FsStep → Bool → Bool → TState → Option CtxId → TState × Option CtxId × Bool
+  | [], _, _, s, pu => (s, pu, false)
+  | .pushIfUr :: rest, ur, feat, s, pu =>
+      if ur then runEnter rest ur feat (push ⟨.fresh s.next, .enabled⟩ { s with next := s.next + 1 }) (some (.fresh s.next))
+      else runEnter rest ur feat s pu
+  | .check :: rest, ur, feat, s, pu => if feat then (s, pu, true) else runEnter rest ur feat s pu
+  | .unknown :: rest, ur, feat, s, pu => runEnter rest ur feat s pu
+
+/-- `with FunctionScope(…, options): body` for a scope whose `__init__` and `__enter__` perform the given steps:
+construction (a refusing check raises before anything is entered), entry, body, `__exit__` (only if entry
+completed). -/
+def scopeWith (init enter : List Gen.FsStep) (ur feat : Bool) (body : Comp) : Comp := fun s =>
+  if feat && init.contains .check then ⟨s, some .rejected, []⟩ else
+  match runEnter enter ur feat s none with
+  | (s1, _, true) => ⟨s1, some .rejected, []⟩
+  | (s1, pu, false) =>
+      let r := body s1
+      match pu with
+      | none => r
+      | some id => let x := exitCtx id r.out r.st; ⟨x.1, x.2, r.log⟩
+
+/-- The function scope of the code under test: steps regenerated from `function_wrappers.py`.  With the pinned
+code (all checks in `__init__`, `__enter__` = the conditional push) this is `functionScope ur body` when the
+options are accepted and an immediate `rejected` otherwise (`fsWith_eq` in Proofs/C16). -/
+def fsWith (ur feat : Bool) (body : Comp) : Comp := scopeWith Gen.fsInitSteps Gen.fsEnterSteps ur feat body
+
 /-- A computation that depends on how its code was obtained. -/
 abbrev MComp := Mode → Comp
 
 /-- `converted_call(f, …, options)` as issued by `convert(recursive=rec, user_requested=ur).wrapper`
 (`options.internal_convert_user_code` is true): `f` is converted — and then runs inside its
 `FunctionScope` — unless the current status is DISABLED. -/
-def convertedCall (ur rec : Bool) (body : MComp) : Comp := fun s =>
+def convertedCall (ur rec feat : Bool) (body : MComp) : Comp := fun s =>
   match s.stack.head? with
   | none => ⟨s, some .index, []⟩
-  | some e => if e.status = .disabled then body .native s else functionScope ur (body (.converted rec)) s
+  | some e => if e.status = .disabled then body .native s else fsWith ur feat (body (.converted rec)) s
 
 /-- Mode in which a plain user function runs when called from converted code whose options have
 `recursive = rec`, the current context being `e`: `converted_call(f, …, caller_fn_scope)`. -/
@@ -203,26 +240,27 @@ if it gets converted, has `user_requested = False` and enters nothing). -/
 def plainCall (m : Mode) (body : MComp) : Comp := fun s =>
   match m with
   | .native => body .native s
+  | .refused => body .native s
   | .converted rec =>
     match s.stack.head? with
     | none => ⟨s, some .index, []⟩
     | some e => body (calleeMode rec e) s
 
 /-- `convert(recursive=rec, user_requested=ur, conversion_ctx=c)(f).wrapper`. -/
-def convertW (ur rec : Bool) (c : Option CtxRef) (body : MComp) : Comp := fun s =>
+def convertW (ur rec feat : Bool) (c : Option CtxRef) (body : MComp) : Comp := fun s =>
   match c with
-  | none => convertedCall ur rec body s
+  | none => convertedCall ur rec feat body s
   | some r =>
     match r.get s.stack with
     | none => ⟨s, some .index, []⟩
-    | some e => withEntry e (convertedCall ur rec body) s
+    | some e => withEntry e (convertedCall ur rec feat body) s
 
 /-- The wrapper `internal_convert` chooses for a context with the given entry. -/
 def resolveInternal (e : Entry) (cbd ur : Bool) : Kind :=
   match e.status with
-  | .enabled => .convert ur true (some (.obj e))
+  | .enabled => .convert ur true false (some (.obj e))
   | .disabled => .doNotConvert
-  | .unspecified => if cbd then .convert ur true (some (.obj e)) else .unspecified
+  | .unspecified => if cbd then .convert ur true false (some (.obj e)) else .unspecified
 
 /-- The call of a node of kind `k` written in a body running in mode `m`; `b` is the callee's body. -/
 def wrap : Kind → Mode → MComp → Comp
@@ -231,23 +269,24 @@ def wrap : Kind → Mode → MComp → Comp
   | .unspecified, _, b => withFresh .unspecified (b .native)
   | .withCtx st false, _, b => withFresh st (b .native)
   | .withCtx st true, m, b => plainCall m (fun m' => withFresh st (plainCall m' b))
-  | .functionScope ur, _, b => functionScope ur (b .native)
-  | .toGraph rec lam, _, b => withFresh .enabled (b (if lam then .native else .converted rec))
-  | .convert ur rec c, _, b => convertW ur rec c b
+  | .functionScope ur feat, _, b => fsWith ur feat (b .native)
+  | .toGraph rec lam feat, _, b => fsWith true feat (b (if lam then .native else .converted rec))
+  | .convert ur rec feat c, _, b => convertW ur rec feat c b
   | .internalConvert r cbd ur, _, b => fun s =>
       match r.get s.stack with
       | none => ⟨s, some .index, []⟩
       | some e =>
         match e.status with
-        | .enabled => convertW ur true (some (.obj e)) b s
+        | .enabled => convertW ur true false (some (.obj e)) b s
         | .disabled => withFresh .disabled (b .native) s
-        | .unspecified => if cbd then convertW ur true (some (.obj e)) b s else withFresh .unspecified (b .native) s
+        | .unspecified => if cbd then convertW ur true false (some (.obj e)) b s else withFresh .unspecified (b .native) s
 
 /-- The body of a node at path `p`, running in mode `m`:
 ```
-obs(in); try: <kids, raise point> except Boom: (obs(caught) if catches else raise); obs(out)
-``` -/
-def bodyC (p : Path) (ca : Bool) (m : Mode) (kids : Comp) : Comp := fun s =>
+obs(in); try: <kids, raise point> except (Boom, scope refusal): (obs(caught) if catches else raise); obs(out)
+```
+In "mode" `refused` the body is not reached: the function scope around it refused the options. -/
+def bodyCore (p : Path) (ca : Bool) (m : Mode) (kids : Comp) : Comp := fun s =>
   let r := kids s
   let o := obsAt p .inn m s
   match r.out with
@@ -255,7 +294,13 @@ def bodyC (p : Path) (ca : Bool) (m : Mode) (kids : Comp) : Comp := fun s =>
   | some (.boom b) =>
       if ca then ⟨r.st, none, o :: (r.log ++ [obsAt p .caught m r.st, obsAt p .out m r.st])⟩
       else ⟨r.st, some (.boom b), o :: r.log⟩
+  | some .rejected =>
+      if ca then ⟨r.st, none, o :: (r.log ++ [obsAt p .caught m r.st, obsAt p .out m r.st])⟩
+      else ⟨r.st, some .rejected, o :: r.log⟩
   | some e => ⟨r.st, some e, o :: r.log⟩
+
+def bodyC (p : Path) (ca : Bool) (m : Mode) (kids : Comp) : Comp := fun s =>
+  if m = .refused then ⟨s, some .rejected, []⟩ else bodyCore p ca m kids s
 
 mutual
 /-- The call of the node `t` (wrapper included) written in a body running in mode `m`; `p` is the node's path. -/
@@ -286,8 +331,9 @@ def runThread (t : Tree) : Comp := fun s =>
 
 `inside k m s`: the thread state after the wrapper of kind `k`, called in state `s` from a body running in
 mode `m`, has entered its contexts and is about to run the wrapped function's body, and the mode of that
-body; `none` when the call fails before that (only possible on an empty context list).  Used to *state*
-what `wrap` does (Props/C16). -/
+body; `none` when the call fails before that (only possible on an empty context list).  When the callee's
+function scope refuses the conversion options the "mode" is `refused` and the state is the one in which the
+refusal is raised.  Used to *state* what `wrap` does (Props/C16). -/
 
 def pushFresh (st : Status) (s : TState) : TState :=
   push ⟨.fresh s.next, st⟩ { s with next := s.next + 1 }
@@ -295,25 +341,30 @@ def pushFresh (st : Status) (s : TState) : TState :=
 def insidePlainCall (m : Mode) (s : TState) : Option (TState × Mode) :=
   match m with
   | .native => some (s, .native)
+  | .refused => some (s, .native)
   | .converted rec =>
     match s.stack.head? with
     | none => none
     | some e => some (s, calleeMode rec e)
 
-def insideConvertedCall (ur rec : Bool) (s : TState) : Option (TState × Mode) :=
+/-- Accepted options: the scope enters its context iff user-requested; refused: nothing entered, body not reached. -/
+def insideScope (ur feat : Bool) (mOk : Mode) (s : TState) : TState × Mode :=
+  if feat then (s, .refused) else if ur then (pushFresh .enabled s, mOk) else (s, mOk)
+
+def insideConvertedCall (ur rec feat : Bool) (s : TState) : Option (TState × Mode) :=
   match s.stack.head? with
   | none => none
   | some e =>
     if e.status = .disabled then some (s, .native)
-    else if ur then some (pushFresh .enabled s, .converted rec) else some (s, .converted rec)
+    else some (insideScope ur feat (.converted rec) s)
 
-def insideConvert (ur rec : Bool) (c : Option CtxRef) (s : TState) : Option (TState × Mode) :=
+def insideConvert (ur rec feat : Bool) (c : Option CtxRef) (s : TState) : Option (TState × Mode) :=
   match c with
-  | none => insideConvertedCall ur rec s
+  | none => insideConvertedCall ur rec feat s
   | some r =>
     match r.get s.stack with
     | none => none
-    | some e => insideConvertedCall ur rec (push e s)
+    | some e => insideConvertedCall ur rec feat (push e s)
 
 def inside : Kind → Mode → TState → Option (TState × Mode)
   | .plain, m, s => insidePlainCall m s
@@ -324,17 +375,17 @@ def inside : Kind → Mode → TState → Option (TState × Mode)
       match insidePlainCall m s with
       | none => none
       | some (_, m') => insidePlainCall m' (pushFresh st s)
-  | .functionScope ur, _, s => if ur then some (pushFresh .enabled s, .native) else some (s, .native)
-  | .toGraph rec lam, _, s => some (pushFresh .enabled s, if lam then .native else .converted rec)
-  | .convert ur rec c, _, s => insideConvert ur rec c s
+  | .functionScope ur feat, _, s => some (insideScope ur feat .native s)
+  | .toGraph rec lam feat, _, s => some (insideScope true feat (if lam then .native else .converted rec) s)
+  | .convert ur rec feat c, _, s => insideConvert ur rec feat c s
   | .internalConvert r cbd ur, _, s =>
       match r.get s.stack with
       | none => none
       | some e =>
         match e.status with
-        | .enabled => insideConvert ur true (some (.obj e)) s
+        | .enabled => insideConvert ur true false (some (.obj e)) s
         | .disabled => some (pushFresh .disabled s, .native)
-        | .unspecified => if cbd then insideConvert ur true (some (.obj e)) s else some (pushFresh .unspecified s, .native)
+        | .unspecified => if cbd then insideConvert ur true false (some (.obj e)) s else some (pushFresh .unspecified s, .native)
 
 /-! ## Small-step machine of one thread, and interleavings
 
@@ -345,7 +396,7 @@ inductive Frame where
   | start
   | fin
   | call (t : Tree) (p : Path) (m : Mode)                                       -- a call written in a body of mode `m`
-  | cc (ur rec : Bool) (cs : List Tree) (ra : Option Nat) (ca : Bool) (p : Path) -- `converted_call` of a `convert` wrapper deciding
+  | cc (ur rec feat : Bool) (cs : List Tree) (ra : Option Nat) (ca : Bool) (p : Path) -- `converted_call` of a `convert` wrapper deciding
   | pc (m : Mode) (cs : List Tree) (ra : Option Nat) (ca : Bool) (p : Path)      -- call of a plain function from mode `m` deciding
   | inn (p : Path) (m : Mode)
   | kids (cs : List Tree) (p : Path) (i : Nat) (ra : Option Nat) (m : Mode)      -- rest of the try-block
@@ -353,6 +404,7 @@ inductive Frame where
   | handler (p : Path) (ca : Bool) (m : Mode)                                    -- `except Boom:` of body `p`
   | out (p : Path) (m : Mode)
   | exit (id : CtxId)                                                            -- pending `__exit__` of a `with`
+  | reject                                                                       -- the function scope refuses its options
   deriving Repr
 
 structure Cfg where
@@ -363,20 +415,31 @@ structure Cfg where
   deriving Repr
 
 def bodyFrames (cs : List Tree) (ra : Option Nat) (ca : Bool) (p : Path) (m : Mode) : List Frame :=
-  [.inn p m, .kids cs p 0 ra m, .handler p ca m, .out p m]
+  if m = .refused then [.reject] else [.inn p m, .kids cs p 0 ra m, .handler p ca m, .out p m]
 
 /-- Frames of `with ControlStatusCtx(st): <inner>` started in state `s`. -/
 def freshFrames (st : Status) (inner : List Frame) (K : List Frame) (s : TState) (L : List Obs) : Cfg :=
   ⟨inner ++ .exit (.fresh s.next) :: K, none, push ⟨.fresh s.next, st⟩ { s with next := s.next + 1 }, L⟩
 
-def convertFrames (ur rec : Bool) (c : Option CtxRef) (cs : List Tree) (ra : Option Nat) (ca : Bool) (p : Path)
+/-- Frames of `with FunctionScope(…): <body in mode mOk>` started in state `s` (the machine's `fsWith`). -/
+def scopeFrames (ur feat : Bool) (mOk : Mode) (cs : List Tree) (ra : Option Nat) (ca : Bool) (p : Path)
+    (K : List Frame) (s : TState) (L : List Obs) : Cfg :=
+  if feat && Gen.fsInitSteps.contains .check then ⟨K, some .rejected, s, L⟩ else
+  match runEnter Gen.fsEnterSteps ur feat s none with
+  | (s1, _, true) => ⟨K, some .rejected, s1, L⟩
+  | (s1, pu, false) =>
+      match pu with
+      | none => ⟨bodyFrames cs ra ca p mOk ++ K, none, s1, L⟩
+      | some id => ⟨bodyFrames cs ra ca p mOk ++ .exit id :: K, none, s1, L⟩
+
+def convertFrames (ur rec feat : Bool) (c : Option CtxRef) (cs : List Tree) (ra : Option Nat) (ca : Bool) (p : Path)
     (K : List Frame) (s : TState) (L : List Obs) : Cfg :=
   match c with
-  | none => ⟨.cc ur rec cs ra ca p :: K, none, s, L⟩
+  | none => ⟨.cc ur rec feat cs ra ca p :: K, none, s, L⟩
   | some r =>
     match r.get s.stack with
     | none => ⟨K, some .index, s, L⟩
-    | some e => ⟨.cc ur rec cs ra ca p :: .exit e.id :: K, none, push e s, L⟩
+    | some e => ⟨.cc ur rec feat cs ra ca p :: .exit e.id :: K, none, push e s, L⟩
 
 def callStep (k : Kind) (m : Mode) (cs : List Tree) (ra : Option Nat) (ca : Bool) (p : Path)
     (K : List Frame) (s : TState) (L : List Obs) : Cfg :=
@@ -389,11 +452,9 @@ def callStep (k : Kind) (m : Mode) (cs : List Tree) (ra : Option Nat) (ca : Bool
       match insidePlainCall m s with
       | none => ⟨K, some .index, s, L⟩
       | some (_, m') => freshFrames st [.pc m' cs ra ca p] K s L
-  | .functionScope ur =>
-      if ur then freshFrames .enabled (bodyFrames cs ra ca p .native) K s L
-      else ⟨bodyFrames cs ra ca p .native ++ K, none, s, L⟩
-  | .toGraph rec lam => freshFrames .enabled (bodyFrames cs ra ca p (if lam then .native else .converted rec)) K s L
-  | .convert ur rec c => convertFrames ur rec c cs ra ca p K s L
+  | .functionScope ur feat => scopeFrames ur feat .native cs ra ca p K s L
+  | .toGraph rec lam feat => scopeFrames true feat (if lam then .native else .converted rec) cs ra ca p K s L
+  | .convert ur rec feat c => convertFrames ur rec feat c cs ra ca p K s L
   | .internalConvert r cbd ur =>
       match r.get s.stack with
       | none => ⟨K, some .index, s, L⟩
@@ -405,13 +466,12 @@ def stepOk (f : Frame) (K : List Frame) (s : TState) (L : List Obs) : Cfg :=
   | .start => ⟨K, none, s, L ++ [obsAt [] .start .native s]⟩
   | .fin => ⟨K, none, s, L ++ [obsAt [] .fin .native s]⟩
   | .call (.node k cs ra ca) p m => callStep k m cs ra ca p K s L
-  | .cc ur rec cs ra ca p =>
+  | .cc ur rec feat cs ra ca p =>
       match s.stack.head? with
       | none => ⟨K, some .index, s, L⟩
       | some e =>
         if e.status = .disabled then ⟨bodyFrames cs ra ca p .native ++ K, none, s, L⟩
-        else if ur then freshFrames .enabled (bodyFrames cs ra ca p (.converted rec)) K s L
-        else ⟨bodyFrames cs ra ca p (.converted rec) ++ K, none, s, L⟩
+        else scopeFrames ur feat (.converted rec) cs ra ca p K s L
   | .pc m cs ra ca p =>
       match insidePlainCall m s with
       | none => ⟨K, some .index, s, L⟩
@@ -426,6 +486,7 @@ def stepOk (f : Frame) (K : List Frame) (s : TState) (L : List Obs) : Cfg :=
   | .handler _ _ _ => ⟨K, none, s, L⟩
   | .out p m => ⟨K, none, s, L ++ [obsAt p .out m s]⟩
   | .exit id => let x := exitCtx id none s; ⟨K, x.2, x.1, L⟩
+  | .reject => ⟨K, some .rejected, s, L⟩
 
 /-- One step while `e` propagates: `__exit__`s run, a catching handler stops it, `fin` still observes,
 every other frame is abandoned. -/
@@ -435,6 +496,7 @@ def stepExc (f : Frame) (K : List Frame) (e : Exn) (s : TState) (L : List Obs) :
   | .handler p ca m =>
       match e with
       | .boom _ => if ca then ⟨K, none, s, L ++ [obsAt p .caught m s]⟩ else ⟨K, some e, s, L⟩
+      | .rejected => if ca then ⟨K, none, s, L ++ [obsAt p .caught m s]⟩ else ⟨K, some e, s, L⟩
       | _ => ⟨K, some e, s, L⟩
   | .fin => ⟨K, some e, s, L ++ [obsAt [] .fin .native s]⟩
   | _ => ⟨K, some e, s, L⟩
@@ -496,9 +558,9 @@ converted function — `to_graph(f)`, a `FunctionScope` with `user_requested`, a
 def requiredStatus (k : Kind) (outer : Option Entry) : Option Status :=
   match k with
   | .doNotConvert => some .disabled
-  | .functionScope true => some .enabled
-  | .toGraph _ _ => some .enabled
-  | .convert true _ c =>
+  | .functionScope true _ => some .enabled
+  | .toGraph _ _ _ => some .enabled
+  | .convert true _ _ c =>
       match effectiveEntry c outer with
       | some e => if e.status = .disabled then none else some .enabled
       | none => none
